@@ -11,6 +11,8 @@ import (
 	"strings"
 	"sync"
 	"time"
+
+	"golang.org/x/tools/go/ssa"
 )
 
 func main() {
@@ -122,9 +124,9 @@ type OblReport struct {
 
 type verifyOpts struct {
 	repo, prop, fnre, out, dump string
-	timeout, jobs              int
-	verbose, content, quiet    bool
-	explain                    bool
+	timeout, jobs               int
+	verbose, content, quiet     bool
+	explain                     bool
 }
 
 type verifyResult struct {
@@ -208,6 +210,9 @@ func runVerify(o *verifyOpts) *verifyResult {
 				names = append(names, n)
 			}
 		}
+	}
+	if *fnre == "" && *prop != "" && os.Getenv("GOVC_NO_CLOSURE") == "" {
+		names = e.callClosure(names)
 	}
 	sort.Strings(names)
 	var reports []*FnReport
@@ -385,4 +390,72 @@ func dedup(xs []string) []string {
 		}
 	}
 	return out
+}
+
+// callClosure adds every function under contract that is reachable through static calls (including closures, go and
+// defer statements, and through functions without a contract) from the selected ones: a caller is verified against its
+// callees' contracts, so a property decided through a caller depends on those callees keeping theirs. Contracts that
+// need the quantified byte-content mode unconditionally stay with the properties they list.
+func (e *Engine) callClosure(names []string) []string {
+	sel := map[string]bool{}
+	for _, n := range names {
+		sel[n] = true
+	}
+	visited := map[*ssa.Function]bool{}
+	var work []*ssa.Function
+	for _, n := range names {
+		if fn := e.funcs[n]; fn != nil {
+			work = append(work, fn)
+		}
+	}
+	for len(work) > 0 {
+		fn := work[len(work)-1]
+		work = work[:len(work)-1]
+		if visited[fn] {
+			continue
+		}
+		visited[fn] = true
+		var callees []*ssa.Function
+		for _, b := range fn.Blocks {
+			for _, in := range b.Instrs {
+				switch x := in.(type) {
+				case ssa.CallInstruction:
+					if c := x.Common().StaticCallee(); c != nil {
+						callees = append(callees, c)
+					}
+					if mc, ok := x.Common().Value.(*ssa.MakeClosure); ok {
+						if f, ok := mc.Fn.(*ssa.Function); ok {
+							callees = append(callees, f)
+						}
+					}
+				case *ssa.MakeClosure:
+					if f, ok := x.Fn.(*ssa.Function); ok {
+						callees = append(callees, f)
+					}
+				}
+			}
+		}
+		for _, c := range callees {
+			root := c
+			for root.Parent() != nil {
+				root = root.Parent()
+			}
+			if root.Pkg == nil || !e.inRepoPkg(root.Pkg) {
+				continue
+			}
+			cn := e.fnName(c)
+			ct := e.contracts[cn]
+			if ct != nil {
+				if ct.Trusted || ct.IsLemma || e.funcs[cn] == nil || (ct.Content && len(ct.ContentProps) == 0) {
+					continue
+				}
+				if !sel[cn] {
+					sel[cn] = true
+					names = append(names, cn)
+				}
+			}
+			work = append(work, c)
+		}
+	}
+	return names
 }
